@@ -187,6 +187,28 @@ def run(ctx):
                   f"missing = {r[1] if r else ''} with frequencies already masked by [{r[2] if r else ''}]",
                   f"missing is `{r[1] if r else None}` computed {'after' if r and r[2] else 'BEFORE'} the gap mask is applied "
                   "(weight in gaps would be counted neither in a cell nor as missed)", kern.where)
+    # on every weighted path the squared errors come from a second histogramdd pass over weights ** 2 (no shortcut)
+    e2 = {}
+    for path in function_paths(kern.node):
+        if end_kind(path) != "return" or not consistent(path):
+            continue
+        cs_ = dict((U(s_[1]), s_[2]) for s_ in path if s_[0] == "cond")
+        if "weights is not None" not in cs_:
+            continue
+        sq = [U(s_[1].targets[0].elts[0]) for s_ in path if s_[0] == "stmt" and isinstance(s_[1], ast.Assign) and isinstance(s_[1].targets[0], ast.Tuple)
+              and isinstance(s_[1].value, ast.Call) and call_is(s_[1].value, "histogramdd") and U(kwarg(s_[1].value, "weights")) == "weights ** 2"
+              and [U(a) for a in s_[1].value.args[:2]] == ["data", "edges"]]
+        defs_ = [U(s_[1].value) for s_ in path if s_[0] == "stmt" and isinstance(s_[1], ast.Assign) and U(s_[1].targets[0]) == "errors2"]
+        ret = path[-1][2].value
+        ok_here = (U(ret.elts[1]) == "errors2") if isinstance(ret, ast.Tuple) and len(ret.elts) == 3 else False
+        if cs_["weights is not None"]:
+            ev_ = "squares" if ok_here and sq and defs_ and defs_[-1].startswith(f"{sq[-1]}[ixgrid]") else f"errors2 = {defs_[-1] if defs_ else None}"
+        else:
+            ev_ = "None" if ok_here and defs_ and defs_[-1] == "None" else f"errors2 = {defs_[-1] if defs_ else None}"
+        e2.setdefault(cs_["weights is not None"], set()).add(ev_)
+    ok_e2 = e2.get(True) == {"squares"} and e2.get(False) == {"None"}
+    ctx.check(ok_e2, "C02.b", "kernelnd:errors2-source", "weighted: histogramdd over weights ** 2, masked; unweighted: None (the caller uses the contents)",
+              f"errors2 returned per `weights is not None`: { {k: sorted(v)[:2] for k, v in e2.items()} }", kern.where)
     txt = U(kern.node)
     ctx.check("ixgrid = np.ix_(*masks)" in txt and "err_freq[ixgrid]" in txt, "C02.b", "kernelnd:errors-masked",
               "squared-weight histogram is masked with the same index grid", "errors2 is not masked with the same grid as the frequencies", kern.where)
@@ -220,6 +242,13 @@ def run(ctx):
     ctx.check(src_ok, "C02.c", "numpy_bins_with_mask:source", "edges, mask come from to_numpy_bins_with_mask(self.bins)",
               "edges / mask are not derived from the binning's own bins", nbm.where)
     check_mask_builder(ctx, "C02.c", m)
+    # the right-edge flag a histogram declares is the one its cells were counted with: binning copies keep it (shared with C07.d)
+    from rules import c07
+    c07.check_copy_forwards(ctx, "C02.c", m)
+    hn_init = HN.methods["__init__"]
+    stb = [U(n.value) for n in ast.walk(hn_init.node) if isinstance(n, ast.Assign) and U(n.targets[0]) in ("binnings", "self._binnings")]
+    ctx.check(all("copy" not in t for t in stb) and bool(stb), "C02.c", "HistogramND.__init__:binnings-as-given",
+              "the constructor keeps the binning objects the cells were counted with", f"binnings stored as {stb}: a copy can differ in its flags", hn_init.where)
 
     # ---- C02.d axis coupling ------------------------------------------------------------------------------------------
     ctx.rule("C02.d", "column i, bins[i] and per-axis kwargs[i] share one index; edges and masks from one pass over the binnings; "
